@@ -398,6 +398,8 @@ def run_check(pid, tier, seed):
         extra_cov = ex.get('coverage', {})
 
     # ---- correspondence
+    other_prop_fails = []
+
     def explore(n, seed_, thorough):
         """run harness + model once; returns (corr, summary, monitor failures)"""
         corr = {'cases': 0, 'skipped_out_of_model': 0, 'mismatches': [], 'distinct': 0, 'samples': []}
@@ -423,6 +425,9 @@ def run_check(pid, tier, seed):
                 except Exception:
                     continue
                 if r.get('info'):
+                    continue
+                if prop.monitor_prefixes and not any(px in r.get('kind', '') for px in prop.monitor_prefixes):
+                    other_prop_fails.append(r)     # belongs to another property's check, which reports it
                     continue
                 mon_fails.append(r)
         if b.model_ok and rc == 0:
@@ -468,7 +473,7 @@ def run_check(pid, tier, seed):
     n = prop.quick_n if tier == 'quick' else prop.thorough_n
     corr, summary, mon_fails = explore(n, seed, tier == 'thorough')
     vanished = 0
-    if corr['mismatches'] and prop.confirm_slow and b.go_ok:
+    if corr['mismatches'] and len(corr['mismatches']) <= 8 and prop.confirm_slow and b.go_ok:
         # a disagreement on a concurrent history is only kept when it persists with every grace period stretched
         keep = []
         for mm in corr['mismatches']:
@@ -533,6 +538,7 @@ def run_check(pid, tier, seed):
         'skipped_out_of_model': corr['skipped_out_of_model'],
         'model_impl_mismatches': len(corr['mismatches']),
         'monitor_failures_on_impl': len(mon_fails),
+        'monitor_failures_of_other_properties': len(other_prop_fails),
         'input_distribution': summary.get('distribution', {}),
         'known_findings_reproduced': sorted(known_hits.keys()),
         'broken': broken,
